@@ -10,7 +10,7 @@ class NoiseProgUnit(WeaverUnit):
 
 class P(Property):
     id = "C15"
-    gen_targets = ["Funfit", "Defaults"]
+    gen_targets = ["Funfit", "Defaults", "Kernels"]
     assumptions = ["zero mean, Gaussian shape, seed reproducibility and the empirical SNR are properties of NumPy's generator: tested (noise_statistics), not proved",
                    "sqrt and 10**(snr/10) are oracles: the theorem is about scale^2 and the linear SNR"]
 
